@@ -1,24 +1,34 @@
-"""C03 — rolling extrema, arg-extrema, rank and normalisation are exact per window. TEMPORARY Engine-K-only
-registration (scratch; the final props/c03.py combines Engine K with Engine M for ts_vzscore)."""
+"""C03 — rolling extrema, arg-extrema, rank and normalisation are exact per window. Engine K (exact kernels) + Engine M (z-score)."""
 import kani_engine
+from mir_engine import props_m
 
-RULE = ("one Kani harness per (kernel, element-type variant, length N); window w in 1..=N+2, min_periods (explicit 0..=w, "
-        "omitted for N >= w) and all element values are kani::any(); every output is compared with a from-scratch scan "
-        "of its window; a harness is non-trivial when all its kani::cover! witnesses are SATISFIED")
+RULE = ("Engine K: one Kani harness per (kernel, element-type variant, length N); window w in 1..=N+2, min_periods (explicit 0..=w, "
+        "omitted for N >= w) and all element values are kani::any(); every output is compared exactly with a from-scratch scan of "
+        "its window; non-trivial = all kani::cover! witnesses SATISFIED. Engine M: ts_vzscore executed from MIR per (L, w, min_periods, "
+        "null mask), z3 asked per position for real inputs where the output differs from (x-mean)/sample-std (null when the spread is "
+        "zero or x is null); non-trivial = all queries unsat")
 
 MANIFEST = {
-    "engine": "K",
-    "technique": "bounded model checking (Kani/CBMC) of ts_vmin/vmax/vargmin/vargmax/vrank/vminmaxnorm against a from-scratch window scan",
+    "engine": "K+M",
+    "technique": "bounded model checking (Kani/CBMC) of ts_vmin/vmax/vargmin/vargmax/vrank/vminmaxnorm against a from-scratch window scan; "
+                 "MIR->SMT symbolic execution of ts_vzscore decided by z3 over exact reals",
     "design_ref": "DESIGN.md 3/C03",
-    "level_text": "CBMC decides for all element values, null masks, windows 1..=N+2 and min_periods at each concrete length N that "
-                  "every output equals the from-scratch window statistic exactly",
-    "level_note": "trusted: Kani/CBMC/CaDiCaL; bound: N <= 4 (quick) / <= 5 (thorough); ts_vzscore is Engine M's",
+    "level_text": "CBMC decides for all element values (small alphabets with ties and unconstrained i32, Option<i32>, f64-from-integers with "
+                  "NaN), null masks, windows 1..=N+2 and min_periods at each concrete length N <= 4 (quick) / 6 (thorough) that every output of "
+                  "the five extrema/rank kernels and of min-max normalisation equals the from-scratch window statistic exactly (most recent "
+                  "position on ties, average ranks, null rules); z3 decides the z-score law for series of length <= 5 (6 thorough)",
+    "level_note": "trusted: Kani/CBMC/CaDiCaL; z3; driver protocol (C02); z-score in exact real arithmetic, |x|<=100; omitted min_periods for the "
+                  "extrema/rank family only where len >= w (DESIGN 5.3); min-max normalisation with unconstrained values uses a shared offset plus small spread",
 }
+READY = True
 
 
 def check(v, tier, opts):
-    v.functions.update(["ts_vmin", "ts_vmax", "ts_vargmin", "ts_vargmax", "ts_vrank", "ts_vminmaxnorm"])
-    v.bounds.append("N in 1..=4 quick, ..=5 thorough; w in 1..=N+2; min_periods explicit 0..=w, omitted for N >= w")
-    v.outside.append("ts_vzscore (Engine M); lengths above the bound")
+    v.functions.update(["ts_vmin", "ts_vmax", "ts_vargmin", "ts_vargmax", "ts_vrank", "ts_vminmaxnorm (tea-rolling/src/cmp.rs, norm.rs)"])
+    v.bounds.append("Engine K: N in 1..=4 quick, ..=6 thorough; w in 1..=N+2; min_periods explicit 0..=w, omitted for N >= w")
+    v.bounds.append("Engine M (ts_vzscore): L in {1,4,5} quick, 1..=6 thorough; w<=5; all null masks for L<=4; |x|<=100")
+    v.outside.append("lengths above the bound; rounding error of the z-score; minmaxnorm on f64 inputs (float subtraction inside the kernel)")
     kani_engine.decide(v, "C03", tier, opts)
+    if not opts.get("only") or "zscore" in (opts.get("only") or ""):
+        props_m.c03_m(v, tier, opts)
     return v.finish(RULE)
